@@ -391,7 +391,7 @@ func runC14(s *kernel.Sim, _ string) {
 			}
 			desc = append(desc, fmt.Sprintf("%s{del=%v bad=%v %s}", p.id, p.deleted, p.badMode, strings.Join(ds, " ")))
 		}
-		s.Logf("sync: fault=%q called=%v full=%v err=%v sent=%v", fault, pb.called, pb.lastFull, rerr, desc)
+		s.Logf("sync: fault=%q called=%v full=%v failed=%v sent=%v", fault, pb.called, pb.lastFull, rerr != nil, desc)
 		if rerr != nil {
 			if fault == "" {
 				s.Failf("C14/sync-failed", "synchronisation failed without a backend fault", "%v", rerr)
